@@ -57,6 +57,10 @@ func NewSolver(kind string, timeoutMs int) (*Solver, error) {
 		return nil, err
 	}
 	s := &Solver{Kind: kind, cmd: cmd, in: in, out: bufio.NewReaderSize(outp, 1<<16), Timeout: timeoutMs}
+	if p := os.Getenv("VP_SOLVERLOG"); p != "" {
+		f, _ := os.Create(fmt.Sprintf("%s.%d", p, cmd.Process.Pid))
+		s.Log = f
+	}
 	s.Reset()
 	return s, nil
 }
@@ -219,6 +223,9 @@ func (s *Solver) Check(extra []*Term, vars []*Term) (res string, model map[strin
 	for res == "" {
 		res = s.readLine()
 	}
+	if s.Log != nil {
+		fmt.Fprintf(s.Log, "; -> %s\n", res)
+	}
 	s.Stats.Queries++
 	switch {
 	case res == "sat":
@@ -269,6 +276,9 @@ func (s *Solver) getValues(vars []*Term) map[string]uint64 {
 		sb.WriteString("))\n")
 		s.send(sb.String())
 		resp := s.readSexp()
+		if s.Log != nil {
+			fmt.Fprintf(s.Log, "; => %s\n", strings.ReplaceAll(resp, "\n", " "))
+		}
 		if strings.Contains(resp, "(error") {
 			return nil
 		}
